@@ -560,6 +560,7 @@ impl Report {
                 "stage": v.stage,
                 "seed": self.ctx.seed,
                 "tier": self.ctx.tier.name(),
+                "profile": profile(),
                 "sig": v.fail.sig,
                 "message": v.fail.msg,
                 "detail": v.fail.detail,
@@ -569,7 +570,8 @@ impl Report {
             let h = fnv64(serde_json::to_string(&json!({"s": v.stage, "c": v.case})).unwrap().as_bytes());
             let dir = format!("{}/replays/{}", verif_dir(), self.id);
             let _ = std::fs::create_dir_all(&dir);
-            let path = format!("{dir}/{h:016x}.json");
+            // a violation that shows only in the build without debug assertions must be replayed with that build
+            let path = if profile() == "plain" { format!("{dir}/{h:016x}.plain.json") } else { format!("{dir}/{h:016x}.json") };
             let _ = std::fs::write(&path, text);
             println!("VIOLATION property={} replay={}", self.id, path);
             println!("  stage={} sig={} : {}", v.stage, v.fail.sig, truncate(&v.fail.msg, 600));
@@ -610,6 +612,28 @@ impl Report {
         });
         let _ = std::fs::create_dir_all(format!("{}/evidence", verif_dir()));
         let path = format!("{}/evidence/{}.json", verif_dir(), self.id);
+        let mut ev = ev;
+        ev["coverage"]["build_profile"] = json!(if profile() == "plain" { "release, overflow checks and debug assertions OFF" } else { "release + overflow checks + debug assertions" });
+        if profile() == "plain" {
+            // second pass of ./check: fold this run into the evidence written by the first (checked) pass
+            let first = std::fs::read_to_string(&path).ok().and_then(|t| serde_json::from_str::<Value>(&t).ok());
+            if let Some(mut first) = first.filter(|f| f["tier"] == ev["tier"] && f["seed"] == ev["seed"] && f["coverage"]["plain_profile_pass"].is_null()) {
+                let c = &ev["coverage"];
+                first["coverage"]["plain_profile_pass"] = json!({
+                    "what": "the same stages, re-run by a second build of the harness + library WITHOUT overflow checks and debug assertions, at a reduced case count",
+                    "evaluations": c["evaluations"],
+                    "cases_generated": c["cases_generated"],
+                    "distinct_nontrivial": c["distinct_nontrivial"],
+                    "skipped_stages": c["skipped_stages"],
+                    "violations_detail": c["violations_detail"],
+                    "scale": self.ctx.scale,
+                    "wall_s": ev["wall_s"],
+                });
+                first["violations"] = json!(first["violations"].as_u64().unwrap_or(0) + self.violations.len() as u64);
+                first["wall_s"] = json!(((first["wall_s"].as_f64().unwrap_or(0.0) + wall) * 1000.0).round() / 1000.0);
+                ev = first;
+            }
+        }
         if let Err(e) = std::fs::write(&path, serde_json::to_string_pretty(&ev).unwrap()) {
             eprintln!("cannot write evidence {path}: {e}");
             if code == 0 {
@@ -617,10 +641,11 @@ impl Report {
             }
         }
         println!(
-            "{} tier={} seed={} evaluations={} cases={} distinct_nontrivial={} violations={} wall={:.1}s",
+            "{} tier={} seed={} profile={} evaluations={} cases={} distinct_nontrivial={} violations={} wall={:.1}s",
             self.id,
             self.ctx.tier.name(),
             self.ctx.seed,
+            profile(),
             self.stats.evaluations,
             self.stats.cases,
             self.stats.nontrivial.len(),
@@ -628,6 +653,16 @@ impl Report {
             wall
         );
         code
+    }
+}
+
+/// Build profile of this harness binary: "checked" (overflow checks + debug assertions on; the default) or "plain"
+/// (both off). Determined at compile time, so a binary cannot mis-report itself.
+pub fn profile() -> &'static str {
+    if cfg!(debug_assertions) {
+        "checked"
+    } else {
+        "plain"
     }
 }
 
